@@ -94,6 +94,7 @@ type sample struct {
 	Status     string `json:"status"`
 	Backend    string `json:"backend"`
 	Millis     int64  `json:"ms"`
+	MaxVCMs    int64  `json:"max_vc_ms"`
 }
 
 func RunCheck(id, tier string, seed int) int {
@@ -316,6 +317,11 @@ func runCheck(id, tier string, seed int, overlay map[string][]byte, quiet bool) 
 			nVC += len(o.VCs)
 			byBackend[o.Backend]++
 			sm := sample{Obligation: o.Name, Kind: o.Kind, Source: o.Src, Where: o.PosStr, VCs: len(o.VCs), Status: o.Status, Backend: o.Backend, Millis: o.Millis}
+			for _, vc := range o.VCs {
+				if vc.Res != nil && vc.Res.Millis > sm.MaxVCMs {
+					sm.MaxVCMs = vc.Res.Millis
+				}
+			}
 			slow = append(slow, sm)
 			switch o.Status {
 			case "discharged":
@@ -339,7 +345,7 @@ func runCheck(id, tier string, seed int, overlay map[string][]byte, quiet bool) 
 	for _, l := range foreign {
 		printf("%s\n", l)
 	}
-	sort.Slice(slow, func(i, j int) bool { return slow[i].Millis > slow[j].Millis })
+	sort.Slice(slow, func(i, j int) bool { return slow[i].MaxVCMs > slow[j].MaxVCMs })
 	if len(slow) > 5 {
 		slow = slow[:5]
 	}
@@ -429,7 +435,7 @@ func writeEvidence(id, tier string, seed int, level string, cov map[string]inter
 
 var trustedBase = []string{
 	"go/packages + go/types + go/ssa (x/tools v0.29.0, NaiveForm) translate /repo's working tree faithfully",
-	"gvc's instruction semantics (DESIGN.md section 2.3, Appendix A) and its soundness argument for monitors, credits and ownership modes",
+	"gvc's instruction semantics (DESIGN.md sections 2.3 and 2.4) and its soundness argument for monitors, credits and ownership modes",
 	"z3 5.1.0, z3 4.8.12, cvc5 1.0.3",
 }
 
